@@ -32,27 +32,27 @@ class P(Prop):
         ("TracklibVerif.Props.C19", "TV.C19.conservation", "the scatter never fails; cell (i,j) holds exactly the values of the observations whose getCell is (j,i); sizes sum to the number of observations, any per-value weight (e.g. non-NaN) is conserved"),
         ("TracklibVerif.Props.C19", "TV.C19.aggregate_spec", "co_count/co_sum/co_min/co_max/co_avg/co_median = that aggregate over the non-NaN values; no non-NaN value -> 0 for count and sum, no-data otherwise"),
         ("TracklibVerif.Props.C19", "TV.C19.aggregates_entry", "computeAggregates writes, in (line i, column j), the operator's value on that cell with NaN replaced by the no-data value"),
+        ("TracklibVerif.Props.C19", "TV.C19.aggregatesN_entry", "computeAggregates on a raster whose no-data value is nd (None included): entry (i,j) is the operator's value on the cell, nd when it is NaN; a cell without a non-NaN value holds 0 for count / sum and the raster's OWN no-data value otherwise"),
         ("TracklibVerif.Props.C19", "TV.C19.session_geometry", "no call on a raster (addAFMap, addCollectionToRaster, computeAggregates, setNoDataValue; failing calls included) changes the grid geometry; one outcome per call"),
         ("TracklibVerif.Props.C19", "TV.C19.add_collection_spec", "addCollectionToRaster REPLACES the values: on a raster in any state, for a collection inside the extent whose tracks have every feature of the bands, it does not raise, leaves bands / geometry / no-data untouched, keeps values for exactly the features of the bands, and cell (i,j) of a feature holds exactly that feature's values of the observations of THIS collection whose getCell is (j,i)"),
         ("TracklibVerif.Props.C19", "TV.C19.add_collection_conservation", "conservation on a raster with a history: after addCollectionToRaster the cell sizes of every feature add up to the number of observations of THIS collection, and any per-value weight (non-NaN: the co_count total) is conserved"),
         ("TracklibVerif.Props.C19", "TV.C19.add_collection_outside", "an observation outside the extent (every track having every feature, at least one band): addCollectionToRaster raises TypeError, bands and geometry untouched"),
         ("TracklibVerif.Props.C19", "TV.C19.obs_cover", "the observations scattered for a feature a track has are all its positions, in order"),
         ("TracklibVerif.Props.C19", "TV.C19.add_collection_missing_feature", "a track lacking a feature of the bands: AnalyticalFeatureError, and every cell of every feature is left empty (the earlier collection's values are gone)"),
-        ("TracklibVerif.Props.C19", "TV.C19.session_spec", "invariant over call sequences: after ANY calls, then a well-formed addCollectionToRaster(T), then any calls other than addCollectionToRaster (bands added later, ...), then computeAggregates with every band <feature>#<operator>: neither raises, and EVERY band, whatever it held before, holds its operator over exactly the values of the observations of T located in each cell (NaN -> NO_DATA_VALUE)"),
-        ("TracklibVerif.Props.C19", "TV.C19.summarize_spec", "one-shot corollary, end to end: on every collection of non-empty tracks (a north-south / east-west line of observations or a single one included: one column / one row), distinct (feature, operator) pairs, every track having every feature, summarize never fails nor returns 0, builds a well-formed grid covering all observations with one band per pair in call order, each band = its operator over exactly the located values"),
+        ("TracklibVerif.Props.C19", "TV.C19.session_spec", "invariant over call sequences: after ANY calls, then a well-formed addCollectionToRaster(T), then any calls other than addCollectionToRaster (bands added later, ...), then computeAggregates with every band <feature>#<operator>: neither raises, and EVERY band, whatever it held before, holds its operator over exactly the values of the observations of T located in each cell, NaN -> the raster's own no-data value as it is at that call (constructor's novalue or the last setNoDataValue)"),
+        ("TracklibVerif.Props.C19", "TV.C19.summarize_spec", "one-shot corollary, end to end: on every collection of non-empty tracks (a north-south / east-west line of observations or a single one included: one column / one row), distinct (feature, operator) pairs, every track having every feature, summarize never fails nor returns 0, builds a well-formed grid covering all observations with one band per pair in call order, each band = its operator over exactly the located values, NaN -> NO_DATA_VALUE (the no-data value of the raster summarize builds)"),
         ("TracklibVerif.Props.C19", "TV.C19.rat_floor_ceil", "the driver's Rat.floor / Rat.ceil are the Int.floor / Int.ceil of the theorems"),
     ]
     partial = []
     open_statements = ["IEEE rounding in (x-xmin)/rx, margins and sums is outside the theorems (floor-ring statement); sampled by the transfer check on float streams",
                        "the values a TypeError-failing addCollectionToRaster leaves behind and the bands a failing computeAggregates has already rewritten are modelled and compared "
                        "(driver), not stated as theorems (the exceptions themselves are: add_collection_missing_feature, add_collection_outside)",
-                       "the raster's own no-data value (Raster(novalue=...), setNoDataValue) is carried by the model; computeAggregates writes the module constant NO_DATA_VALUE "
-                       "whatever it is (finding custom-novalue-ignored, findings/C19.json): the theorems say NaN -> the written constant"]
+                       ]
     modelled = ("core/raster.py: Raster.__init__ (margin, ncol/nrow = max(1, ceil(..))), getCell, and the Raster object as a state machine (Model/RasterSession.lean): "
                 "the bands (AFMap.__init__ name / grid checks, addAFMap with and without grid, getNamesOfAFMap order), collectionValuesGrid (absent before the first collection), "
                 "addCollectionToRaster (features = band names up to '#', the dictionary REPLACED, AnalyticalFeatureError test after the replacement, scatter loop "
                 "track x feature x observation with Python list indexing, TypeError on an observation outside the grid leaving the partial scatter), computeAggregates (bands in "
-                "insertion order, IndexError / AttributeError / KeyError / NameError at the first cell of a band, NaN -> module constant NO_DATA_VALUE), get/setNoDataValue; "
+                "insertion order, IndexError / AttributeError / KeyError / NameError at the first cell of a band, NaN -> the raster's current no-data value, None included — fix 279f7b2), get/setNoDataValue; "
                 "algo/summarising.py summarize (argument checks, bounding box, one addAFMap per (feature, operator) in call order via AFMap.getMeasureName, add, compute); "
                 "core/track.py hasAnalyticalFeature / getObsAnalyticalFeature for uid, x, y, idx and the track's own features; "
                 "core/utils.py co_count co_sum co_min co_max co_avg co_median; the collection's bounding box is modelled as min/max of the coordinates")
@@ -74,7 +74,7 @@ class P(Prop):
             "SESSIONS on one Raster object (Rat lattice and Float): 2..3 collections over one study area (tracks with 0..5 observations, a track may lack w), the raster built on an explicit "
             "box / on collection 0's bounding box / returned by summarize() / on a box too small; templates reuse (bands, then add+compute for 2..3 collections), summ-reuse (another "
             "collection scattered on the raster summarize returned), late-band (bands added after a pass, for scattered and for new features), change (feature values rewritten between add and "
-            "compute and before a second add), two-rasters (two rasters from the SAME Bbox object), errors (compute before add, names taken / empty / without '#' / unknown operator, explicit "
+            "compute and before a second add), two-rasters (two rasters from the SAME Bbox object), nodata (Raster(novalue=x | None), setNoDataValue before the bands / between add and compute / between two computes; 1 in 4 of the other sessions has its own novalue too), errors (compute before add, names taken / empty / without '#' / unknown operator, explicit "
             "grids of right and wrong shape, observations outside), soup (3..9 random calls incl. summarize in scalar / callable / duplicated / ragged / empty argument forms, features x, y, idx); "
             "after every call the whole object state (geometry, no-data, every band, collectionValuesGrid) is compared with the model; the oracle checks, after every well-formed "
             "addCollectionToRaster, the footprint of every observation's cell and the values kept per cell, and after every computeAggregates EVERY band against the collection scattered LAST; "
@@ -98,15 +98,6 @@ class P(Prop):
         from tracklib.core.raster import AFMap
         self.AFMap = AFMap
         self._names = {}
-        # the stream with a raster-specific no-data value (Raster(novalue=...), setNoDataValue) is generated once the
-        # finding it exhibits is listed (known_findings.json, class custom-novalue-ignored; proposed in findings/C19.json)
-        self.novalue_listed = False
-        try:
-            with open(os.path.join(os.path.dirname(os.path.dirname(os.path.dirname(os.path.abspath(__file__)))), "known_findings.json")) as fh:
-                self.novalue_listed = any(e.get("property") == "C19" and e.get("class") == "custom-novalue-ignored" and e.get("status") == "finding"
-                                          for e in json.load(fh).get("entries", []))
-        except Exception:
-            pass
 
     # ---------------------------------------------------------------- generators
     def exhaustive_scopes(self, tier):
@@ -379,13 +370,13 @@ class P(Prop):
     # ---------------------------------------------------------------- model
     def enc(self, case):
         if case["mode"] == "q":
-            return lambda v: "nan" if v == "nan" else ratstr(v)
-        return lambda v: "nan" if v == "nan" else fbits(v)
+            return lambda v: "None" if v is None or v == "None" else "nan" if v == "nan" else ratstr(v)
+        return lambda v: "None" if v is None or v == "None" else "nan" if v == "nan" else fbits(v)
 
     def dec(self, case):
         if case["mode"] == "q":
-            return lambda w: NAN if w == "nan" else float(parse_rat(w))
-        return bitsf
+            return lambda w: None if w == "None" else NAN if w == "nan" else float(parse_rat(w))
+        return lambda w: None if w == "None" else bitsf(w)
 
     def requests(self, case):
         e = self.enc(case)
@@ -656,7 +647,11 @@ class P(Prop):
         return self.TC(out), out
 
     def num(self, v):
-        return v if isinstance(v, (int, float)) and not isinstance(v, bool) else repr(v)
+        return v if v is None or (isinstance(v, (int, float)) and not isinstance(v, bool)) else repr(v)
+
+    def pyval(self, v):
+        """a no-data value of the case: the string "None" stands for Python's None"""
+        return None if v == "None" else v
 
     def snap(self, r):
         if r is None:
@@ -727,7 +722,7 @@ class P(Prop):
                         bb = built[box["of"]][0].bbox()
                     else:
                         bb = boxes.setdefault(tuple(box), self.Bbox(self.ENU(box[0], box[2], 0), self.ENU(box[1], box[3], 0)))
-                    r = self.Raster(bb, tuple(res), mg) if nd is None else self.Raster(bb, tuple(res), mg, nd)
+                    r = self.Raster(bb, tuple(res), mg) if nd is None else self.Raster(bb, tuple(res), mg, self.pyval(nd))
                 elif kind == "summarize":
                     _, k, afs, ops, res, mg, form = op
                     r = None
@@ -754,7 +749,7 @@ class P(Prop):
                 elif kind == "compute":
                     r.computeAggregates()
                 elif kind == "nodata":
-                    r.setNoDataValue(op[1])
+                    r.setNoDataValue(self.pyval(op[1]))
                 else:
                     raise ValueError("unknown op")
             except Exception as e:
@@ -889,8 +884,13 @@ class P(Prop):
                     here = members.get((l, c), [])
                     want = self.agg(o, here, nodata)
                     got = g[l][c]
-                    if not isinstance(got, (int, float)) or isnan(got) or not close(got, want, 1e-9):
-                        return "%s[line %d][col %d] = %r, the values located there %s give %r" % (name, l, c, got, here, want)
+                    if want is None:
+                        bad = got is not None
+                    else:
+                        bad = not isinstance(got, (int, float)) or isnan(got) or not close(got, want, 1e-9)
+                    if bad:
+                        return "%s[line %d][col %d] = %r, the values located there %s give %r (the raster's no-data value is %r)" % (
+                            name, l, c, got, here, want, nodata)
         return None
 
     def check_values(self, geo, values, tracks, cells, afs):
@@ -1000,7 +1000,7 @@ class P(Prop):
                     cur["bands"].append(name)
                 continue
             if kind == "nodata":
-                if outc != "ok" or snap["nodata"] != op[1]:
+                if outc != "ok" or snap["nodata"] != self.pyval(op[1]):
                     return where + "no-data value %r after setNoDataValue(%r) (%s)" % (snap["nodata"], op[1], outc)
                 continue
             if kind == "add":
@@ -1042,21 +1042,6 @@ class P(Prop):
                     if m:
                         return where + "(bands after computeAggregates, collection %d scattered last) " % last["k"] + m
                 continue
-        return None
-
-    def classify(self, case, impl_out, msg):
-        if case.get("kind") == "session" and msg and any(
-                (op[0] == "new" and op[4] is not None and op[4] != NO_DATA) or op[0] == "nodata" for op in case["ops"]):
-            alt = copy.deepcopy(case)
-            alt["ops"] = [(op[:4] + [None] if op[0] == "new" else op) for op in alt["ops"] if op[0] != "nodata"]
-            try:
-                import contextlib, io
-                with contextlib.redirect_stdout(io.StringIO()):
-                    ok = self.spec_session(alt, self.impl_session(alt)) is None
-                if ok:
-                    return "custom-novalue-ignored"
-            except Exception:
-                return None
         return None
 
     # ---------------------------------------------------------------- generators
@@ -1105,7 +1090,7 @@ class P(Prop):
             ox, oy = rng.uniform(-1e4, 1e4), rng.uniform(-1e4, 1e4)
             res = [W / rng.choice([1, 2, 3, 4.5]), H / rng.choice([1, 2, 3, 4.5])]
             mg = rng.choice([0, 0.05, 0.1, 0.3])
-        tpl = tpl or rng.choice(["reuse", "reuse", "reuse", "summ-reuse", "summ-reuse", "late-band", "change", "errors", "soup", "soup", "two-rasters"])
+        tpl = tpl or rng.choice(["reuse", "reuse", "reuse", "summ-reuse", "summ-reuse", "late-band", "change", "errors", "soup", "soup", "two-rasters", "nodata", "nodata"])
         ncoll = rng.randrange(2, 4)
         colls = [self.s_coll(rng, mode, W, H, ox, oy, 1 + 10 * k, empty_ok=(k > 0)) for k in range(ncoll)]
         # collection 0 has no empty track and spans the study area: a raster built on its bounding box contains the others
@@ -1121,9 +1106,11 @@ class P(Prop):
         for n in t["f"]:
             t["f"][n].append(rng.choice([1.0, "nan", -3.5]))
         area = [ox, ox + W, oy, oy + H]
-        nov = None
-        if self.novalue_listed and rng.random() < 0.25:
-            nov = rng.choice([-1.0, 0.0, -99999.0, 12345.0])
+        nov = None                                                  # None: the constructor's default; "None": novalue=None
+        if tpl == "nodata" or rng.random() < 0.25:
+            nov = rng.choice([-1.0, 0.0, -99999.0, 12345.0, -1.0, 0.5, "None"])
+        def nodata():
+            return ["nodata", rng.choice([-1.0, 0.0, -99999.0, 7.0, 2.5, "None"])]
         new = ["new", rng.choice([area, area, {"of": 0}]), res, mg, nov]
         if tpl == "errors" and rng.random() < 0.4:                  # a raster smaller than the study area: observations outside
             new = ["new", [ox, ox + W / 2, oy, oy + H / 2] if mode == "q" else [ox, ox + W * 0.5, oy, oy + H * 0.5], res, mg, nov]
@@ -1165,7 +1152,16 @@ class P(Prop):
         if tpl == "reuse":
             ops = [new] + bands
             for _ in range(rng.randrange(2, 4)):
-                ops += [["add", pick()], ["compute"]]
+                ops += [["add", pick()]] + ([nodata()] if rng.random() < 0.15 else []) + [["compute"]]
+        elif tpl == "nodata":
+            # the raster's own no-data value: given to the constructor, changed before the bands / between
+            # addCollectionToRaster and computeAggregates / between two computeAggregates
+            ops = [new] + ([nodata()] if rng.random() < 0.3 else []) + bands + [["add", pick()]]
+            ops += ([nodata()] if rng.random() < 0.6 else []) + [["compute"]]
+            if rng.random() < 0.6:
+                ops += [nodata(), ["compute"]]
+            if rng.random() < 0.5:
+                ops += [["add", pick()]] + ([nodata()] if rng.random() < 0.5 else []) + [["band", self.s_band(rng, 0.0)], ["compute"]]
         elif tpl == "summ-reuse":
             ops = [summ(0)]
             for _ in range(rng.randrange(1, 3)):
@@ -1211,10 +1207,8 @@ class P(Prop):
                         ops.append(sf)
                 elif r < 0.95:
                     ops.append(summ())
-                elif self.novalue_listed:
-                    ops.append(["nodata", rng.choice([-1.0, 0.0, -99999.0, 7.0])])
                 else:
-                    ops.append(["compute"])
+                    ops.append(nodata())
         return {"kind": "session", "mode": mode, "tpl": tpl, "colls": colls, "ops": ops}
 
     def session_enum(self, tier):
